@@ -41,4 +41,13 @@ def main():
 
 
 if __name__ == "__main__":
-    sys.exit(main())
+    try:
+        rc = main()
+    except SystemExit:
+        raise
+    except BaseException:
+        import traceback
+        traceback.print_exc()
+        print("HARNESS-ERROR uncaught exception in the check driver")
+        rc = 2
+    sys.exit(rc)
